@@ -113,6 +113,12 @@ DevEnabled(d, feat) ==
     \* a command whose first argument starts with a Python keyword glued to `-` or `=` (`echo not-x`,
     \* `echo if=a`) is taken for a Python statement and the keyword is spaced off its tail
     [] d = "Dev_KeywordLedArgument"       -> feat.keyword_led_argument
+    \* the body of a block macro (`with! ctx():`) is raw text handed to the context manager, but is
+    \* reformatted like Python
+    [] d = "Dev_WithMacroBodyReformatted" -> feat.with_macro_block
+    \* a backslash-newline glued to the word before it and the word after it (`a\<newline>b` is the one
+    \* word `ab`): the continuation line is indented, which separates the halves
+    [] d = "Dev_GluedContinuationSplit"   -> feat.glued_continuation
     [] OTHER -> FALSE
 
 Format(feat, accepted) ==
@@ -132,7 +138,7 @@ Init == /\ input \in Streams /\ level \in {0, 1}
         /\ lineStart = TRUE /\ pending = 0 /\ pass = 1 /\ first = <<>>
         /\ res = [accepted |-> TRUE, same |-> TRUE, idem |-> TRUE, dev |-> ""] /\ phase = "run"
 
-MCFormat == \E tt \in BOOLEAN, al \in BOOLEAN, dc \in BOOLEAN, gh \in BOOLEAN, kl \in BOOLEAN : Format([triple_trailing |-> tt, assign_like_command |-> al, dangling_continuation |-> dc, glued_hash_after_bracket |-> gh, keyword_led_argument |-> kl], TRUE)
+MCFormat == \E tt \in BOOLEAN, al \in BOOLEAN, dc \in BOOLEAN, gh \in BOOLEAN, kl \in BOOLEAN, wm \in BOOLEAN, gc \in BOOLEAN : Format([triple_trailing |-> tt, assign_like_command |-> al, dangling_continuation |-> dc, glued_hash_after_bracket |-> gh, keyword_led_argument |-> kl, with_macro_block |-> wm, glued_continuation |-> gc], TRUE)
 Next == Step \/ EndPass \/ (phase = "done" /\ phase' = "idle" /\ UNCHANGED <<input, pos, out, depth, macroFn, macroLine, subproc, lineStart, pending, level, pass, first, res>>) \/ MCFormat
 Spec == Init /\ [][Next]_vars
 
